@@ -30,7 +30,7 @@ class AV:
         return f"AV({self.kind})"
 
 
-def compile_function(fn, self_obj, tag: str) -> Tuple[List[Dict[str, Any]], Dict[str, Any]]:
+def compile_function(fn, self_obj, tag: str, fresh_lock_id: int = 2) -> Tuple[List[Dict[str, Any]], Dict[str, Any]]:
     """-> (steps, info). Each instruction yields exactly one step (so steps map 1:1 to 'opcode' trace events)."""
     code = fn.__code__
     instrs = [i for i in dis.get_instructions(code)]
@@ -56,6 +56,13 @@ def compile_function(fn, self_obj, tag: str) -> Tuple[List[Dict[str, Any]], Dict
             return "counter"
         return "obj"
 
+    # "lock variables": attributes of self that are used as the context manager of a with-statement AND are assigned in this
+    # function (a lock created on first use).  Their value is shared state: 0 = None, j >= 1 = lock object number j.
+    with_attrs = {instrs[i - 1].argval for i, ins_ in enumerate(instrs) if ins_.opname == "BEFORE_WITH" and i and instrs[i - 1].opname == "LOAD_ATTR"}
+    stored_attrs = {ins_.argval for ins_ in instrs if ins_.opname == "STORE_ATTR"}
+    lockvars = with_attrs & stored_attrs
+    pred_until = [None]      # index up to which the current steps are predicated
+    pred_cond = [None]
     idx = 0
     offset_to_idx = {ins.offset: k for k, ins in enumerate(instrs)}
     done = False
@@ -84,10 +91,20 @@ def compile_function(fn, self_obj, tag: str) -> Tuple[List[Dict[str, Any]], Dict
             stack[-1], stack[-ins.arg] = stack[-ins.arg], stack[-1]
         elif op == "PUSH_NULL":
             stack.append(AV("null"))
+        elif op == "LOAD_GLOBAL":
+            if ins.arg & 1:
+                stack.append(AV("null"))
+            stack.append(AV("obj", deps=[]))         # a module / builtin: not shared mutable state of the connection
         elif op in ("LOAD_ATTR", "LOAD_METHOD"):
             o = stack.pop()
             method_form = bool(ins.arg & 1) if op == "LOAD_ATTR" else True
-            if o.kind == "self":
+            if o.kind == "self" and arg in lockvars:
+                v = newreg()
+                v = AV("lockref", reg=v.reg, name=arg)
+                st = {"kind": "gread", "var": arg, "reg": v.reg, "op": op, "offset": ins.offset}
+            elif o.kind == "lockref" and arg in ("acquire", "release", "__enter__", "__exit__"):
+                v = AV("lockmethod", name=o.name, method=arg, lockid=o.reg)
+            elif o.kind == "self":
                 k = attr_kind(arg)
                 if k == "lock":
                     v = AV("lock", name=arg)
@@ -108,15 +125,21 @@ def compile_function(fn, self_obj, tag: str) -> Tuple[List[Dict[str, Any]], Dict
             v = stack.pop()
             if o.kind != "self":
                 raise Untranslatable("STORE_ATTR on a non-self object")
-            if attr_kind(arg) != "counter":
+            if arg in lockvars:
+                if v.kind != "obj":
+                    raise Untranslatable("a lock variable is assigned something that is not a freshly created object")
+                # (assumption: the object stored is a new lock, as threading.Lock() gives)
+                st = {"kind": "gwrite", "var": arg, "value": fresh_lock_id, "op": op, "offset": ins.offset}
+            elif attr_kind(arg) != "counter":
                 raise Untranslatable(f"store to attribute {arg} which is not the int counter")
-            if v.kind == "int":
+            elif v.kind == "int":
                 expr = v.expr if v.expr is not None else v.reg
+                st = {"kind": "write", "var": arg, "expr": expr, "op": op, "offset": ins.offset}
             elif v.kind == "const":
                 expr = z3.IntVal(v.value)
+                st = {"kind": "write", "var": arg, "expr": expr, "op": op, "offset": ins.offset}
             else:
                 raise Untranslatable("storing a non-int into the counter")
-            st = {"kind": "write", "var": arg, "expr": expr, "op": op, "offset": ins.offset}
         elif op == "BINARY_OP":
             b = stack.pop()
             a = stack.pop()
@@ -137,11 +160,16 @@ def compile_function(fn, self_obj, tag: str) -> Tuple[List[Dict[str, Any]], Dict
                 stack.append(AV("obj", deps=list(getattr(a, "deps", [])) + list(getattr(b, "deps", []))))
         elif op == "BEFORE_WITH":
             o = stack.pop()
-            if o.kind != "lock":
-                raise Untranslatable("with-statement on something that is not the lock")
-            stack.append(AV("lockmethod", name=o.name, method="__exit__"))
-            stack.append(AV("true"))
-            st = {"kind": "acquire", "lock": o.name, "op": op, "offset": ins.offset}
+            if o.kind == "lockref":
+                stack.append(AV("lockmethod", name=o.name, method="__exit__", lockid=o.reg))
+                stack.append(AV("true"))
+                st = {"kind": "acquire", "lock": o.name, "lockid": o.reg, "op": op, "offset": ins.offset}
+            else:
+                if o.kind != "lock":
+                    raise Untranslatable("with-statement on something that is not the lock")
+                stack.append(AV("lockmethod", name=o.name, method="__exit__"))
+                stack.append(AV("true"))
+                st = {"kind": "acquire", "lock": o.name, "op": op, "offset": ins.offset}
         elif op == "CALL":
             n = ins.arg
             args = [stack.pop() for _ in range(n)][::-1]
@@ -153,12 +181,15 @@ def compile_function(fn, self_obj, tag: str) -> Tuple[List[Dict[str, Any]], Dict
             if c1.kind == "lockmethod":
                 callee = c1
             if callee.kind == "lockmethod":
+                lid = getattr(callee, "lockid", None)
                 if callee.method in ("__exit__", "release"):
                     st = {"kind": "release", "lock": callee.name, "op": op, "offset": ins.offset}
                     stack.append(AV("none"))
                 else:
                     st = {"kind": "acquire", "lock": callee.name, "op": op, "offset": ins.offset}
                     stack.append(AV("true"))
+                if lid is not None:
+                    st["lockid"] = lid
             else:
                 deps = []
                 for x in args + [callee]:
@@ -168,6 +199,19 @@ def compile_function(fn, self_obj, tag: str) -> Tuple[List[Dict[str, Any]], Dict
                 stack.append(AV("obj", deps=deps))
         elif op in ("POP_JUMP_IF_NOT_NONE", "POP_JUMP_IF_NONE"):
             v = stack.pop()
+            if v.kind == "lockref":
+                tgt = offset_to_idx[ins.argval]
+                if tgt <= idx or pred_until[0] is not None:
+                    raise Untranslatable("backward or nested branch on a lock variable")
+                if any(instrs[j].opname.startswith(("JUMP", "POP_JUMP", "RETURN", "FOR_", "SEND")) for j in range(idx + 1, tgt)):
+                    raise Untranslatable("control flow inside a block guarded by a lock variable")
+                # the fall-through block runs iff the variable is None (POP_JUMP_IF_NOT_NONE) / is not None (POP_JUMP_IF_NONE):
+                # its steps are kept in the straight-line program and predicated
+                pred_until[0] = tgt
+                pred_cond[0] = (v.reg == 0) if op == "POP_JUMP_IF_NOT_NONE" else (v.reg != 0)
+                steps.append(st)
+                idx = nxt
+                continue
             if getattr(v, "shared_attr", None) is not None:
                 # e.g. a lock that is created on first use: which way this goes depends on what other threads did; the
                 # straight-line model cannot decide it statically
@@ -198,6 +242,12 @@ def compile_function(fn, self_obj, tag: str) -> Tuple[List[Dict[str, Any]], Dict
             stack.append(AV("obj", deps=deps))
         else:
             raise Untranslatable(f"opcode {op} is outside the modelled subset")
+        if pred_until[0] is not None:
+            if idx >= pred_until[0]:
+                pred_until[0] = None
+                pred_cond[0] = None
+            else:
+                st["cond"] = pred_cond[0]
         steps.append(st)
         idx = nxt
     if ret is None:
@@ -207,7 +257,12 @@ def compile_function(fn, self_obj, tag: str) -> Tuple[List[Dict[str, Any]], Dict
         raise Untranslatable("return value does not depend on a number read from the counter")
     number = deps[-1] if ret.kind != "int" else (ret.expr if ret.expr is not None else ret.reg)
     steps[-1] = dict(steps[-1], kind="ret", number=number)
-    return steps, {"n_instructions": len(steps), "ops": [s["op"] for s in steps]}
+    lv_init = {}
+    for name in lockvars:
+        lv_init[name] = 0 if getattr(self_obj, name) is None else 1
+    if len(lockvars) > 1:
+        raise Untranslatable("more than one lock variable")
+    return steps, {"n_instructions": len(steps), "ops": [s["op"] for s in steps], "lockvars": lv_init}
 
 
 class Model:
@@ -218,7 +273,7 @@ class Model:
         for t in range(threads):
             prog: List[Dict[str, Any]] = []
             for c in range(calls):
-                steps, info = compile_function(fn, self_obj, f"t{t}c{c}")
+                steps, info = compile_function(fn, self_obj, f"t{t}c{c}", fresh_lock_id=2 + t * calls + c)
                 self.info = info
                 prog += [dict(s, call=c) for s in steps]
             self.progs.append(prog)
@@ -234,6 +289,11 @@ class Model:
         self.sched = [z3.Int(f"s{k}") for k in range(self.K)]
         self.cur = [z3.Int(f"cur{k}") for k in range(self.K + 1)]
         self.owner = [z3.Int(f"own{k}") for k in range(self.K + 1)]
+        # lock variables (a lock created on first use): value of the variable per step, owner per lock object number
+        self.lockvar_init = (list(self.info.get("lockvars", {}).values()) or [None])[0]
+        self.n_locks = 1 + threads * calls
+        self.gv = [z3.Int(f"gv{k}") for k in range(self.K + 1)]
+        self.owners = [[z3.Int(f"own{j}_{k}") for k in range(self.K + 1)] for j in range(self.n_locks + 1)]      # index 1..n_locks
         self.pc = [[z3.Int(f"pc{t}_{k}") for k in range(self.K + 1)] for t in range(self.T)]
         self.queries = 0
         self.solver_time = 0.0
@@ -244,6 +304,8 @@ class Model:
         cons.append(z3.And(sk >= 0, sk < self.T))
         cur_next = self.cur[k]
         own_next = self.owner[k]
+        gv_next = self.gv[k]
+        owners_next = [None] + [self.owners[j][k] for j in range(1, self.n_locks + 1)]
         for t, prog in enumerate(self.progs):
             here = sk == t
             cons.append(self.pc[t][k + 1] == z3.If(here, self.pc[t][k] + 1, self.pc[t][k]))
@@ -254,7 +316,22 @@ class Model:
                 if i > k:
                     continue
                 g = z3.And(here, self.pc[t][k] == i)
-                if st["kind"] == "read":
+                if st.get("cond") is not None:
+                    g = z3.And(g, st["cond"])            # a predicated step whose condition is false is a no-op (the pc still advances)
+                if st["kind"] == "gread":
+                    cons.append(z3.Implies(g, st["reg"] == self.gv[k]))
+                elif st["kind"] == "gwrite":
+                    gv_next = z3.If(g, z3.IntVal(st["value"]), gv_next)
+                elif st["kind"] in ("acquire", "release") and st.get("lockid") is not None:
+                    e = st["lockid"]
+                    if st["kind"] == "acquire":
+                        cons.append(z3.Implies(g, z3.Or(*[z3.And(e == j, self.owners[j][k] == -1) for j in range(1, self.n_locks + 1)])))
+                        for j in range(1, self.n_locks + 1):
+                            owners_next[j] = z3.If(z3.And(g, e == j), z3.IntVal(t), owners_next[j])
+                    else:
+                        for j in range(1, self.n_locks + 1):
+                            owners_next[j] = z3.If(z3.And(g, e == j), z3.IntVal(-1), owners_next[j])
+                elif st["kind"] == "read":
                     cons.append(z3.Implies(g, st["reg"] == self.cur[k]))
                 elif st["kind"] == "write":
                     cur_next = z3.If(g, st["expr"], cur_next)
@@ -265,10 +342,17 @@ class Model:
                     own_next = z3.If(g, z3.IntVal(-1), own_next)
         cons.append(self.cur[k + 1] == cur_next)
         cons.append(self.owner[k + 1] == own_next)
+        if self.lockvar_init is not None:
+            cons.append(self.gv[k + 1] == gv_next)
+            for j in range(1, self.n_locks + 1):
+                cons.append(self.owners[j][k + 1] == owners_next[j])
         return cons
 
     def base(self):
         cons = [self.c0 >= 0, self.cur[0] == self.c0, self.owner[0] == -1]
+        if self.lockvar_init is not None:
+            cons.append(self.gv[0] == self.lockvar_init)
+            cons += [self.owners[j][0] == -1 for j in range(1, self.n_locks + 1)]
         for t in range(self.T):
             cons.append(self.pc[t][0] == 0)
         return cons
@@ -325,16 +409,38 @@ class Model:
             unfinished = [self.pc[t][k] < len(self.progs[t]) for t in range(self.T)]
             blocked = []
             for t, prog in enumerate(self.progs):
-                acq = [i for i, st in enumerate(prog) if st["kind"] == "acquire"]
-                at_acq = z3.Or(*[self.pc[t][k] == i for i in acq]) if acq else z3.BoolVal(False)
-                blocked.append(z3.Or(z3.Not(unfinished[t]), z3.And(at_acq, self.owner[k] != -1)))
+                blk = []
+                for i, st in enumerate(prog):
+                    if st["kind"] != "acquire":
+                        continue
+                    if st.get("lockid") is not None:
+                        e = st["lockid"]
+                        busy = z3.Or(*[z3.And(e == j, self.owners[j][k] != -1) for j in range(1, self.n_locks + 1)])
+                    else:
+                        busy = self.owner[k] != -1
+                    c_ = st.get("cond")
+                    blk.append(z3.And(self.pc[t][k] == i, busy) if c_ is None else z3.And(self.pc[t][k] == i, c_, busy))
+                at_blocked = z3.Or(*blk) if blk else z3.BoolVal(False)
+                blocked.append(z3.Or(z3.Not(unfinished[t]), at_blocked))
             dead_any.append(z3.And(L == k, z3.Or(*unfinished), z3.And(*blocked)))
         r, m = self._check(cons + [z3.Or(*dead_any)])
         return r, m
 
     def visible_schedule(self, m, upto: Optional[int] = None) -> List[int]:
+        """thread id per visible step that is really executed (steps of a guarded block that is skipped in this run are left out:
+        the real threads never reach those instructions)"""
         n = self.K if upto is None else upto
-        return [m.eval(self.sched[k], model_completion=True).as_long() for k in range(n)]
+        out = []
+        done = [0] * self.T
+        for k in range(n):
+            t = m.eval(self.sched[k], model_completion=True).as_long()
+            st = self.progs[t][done[t]]
+            done[t] += 1
+            c_ = st.get("cond")
+            if c_ is not None and not z3.is_true(m.eval(c_, model_completion=True)):
+                continue
+            out.append(t)
+        return out
 
     def visible_offsets(self) -> List[int]:
         return sorted({st["offset"] for prog in self.progs for st in prog})
